@@ -178,7 +178,7 @@ def failure_key(case, why):
 
 
 def run(ctx, out, replay=None):
-    n = 600 if ctx.quick() else 5000
+    n = 520 if ctx.quick() else 5000
     out.rule = ("same generators as C02: (a) chains on fresh objects (guillotine / sparse / grid / sliver layouts; empty, "
                 "single, multi, full, fixed maps; depths 0-3; layouts with different numbers of x- and y-boundaries), "
                 "must_be_refined probed at 5 thresholds before and after every operation; (b) histories on shared objects: "
@@ -194,7 +194,7 @@ def run(ctx, out, replay=None):
     rng = random.Random(f"C12x-{ctx.seed}")
     cases += c02.gen_cases(rng, max(n - len(cases), 0), ctx.quick())
     fr.run_cases(ctx, out, cases, ac.run_any, ac.any_to_coq, oracle, failure_key, HEADER_H,
-                 dist_key=ac.any_dist_key, nontrivial=ac.nontrivial, shard=150, shrink=ac.any_shrink)
+                 dist_key=ac.any_dist_key, nontrivial=ac.nontrivial, shard=75, shrink=ac.any_shrink)
     out.extra["history_cases"] = sum(1 for c in cases if ac.is_hist(c))
     out.extra["variants"] = ac.variant_counts(cases)
     out.extra["note"] = "distribution keys are layout-kind/operation-sequence"
